@@ -119,8 +119,9 @@ static void exact_multi(int t, int bb, int n_in, int n_out, int reps) {
     int w = 0; for (int x: K.s_in) w += x;
     VH_OP("lweKeySwitch:multi:n_in=%d:n_out=%d:t=%d:basebit=%d", n_in, n_out, t, bb);
     for (int rep = 0; rep < reps; rep++) {
-        int cls = rep % 4;
+        int cls0 = rep % 5;      // 4: every coefficient draws its own class (neighbouring coefficients of different special kinds)
         for (int i = 0; i < n_in; i++) {
+            int cls = cls0 == 4 ? (int) rng.below(4) : cls0;
             U v = cls == 0 ? rng.u32() : cls == 1 ? (rng.u32() << (32 - tb)) + halfu + (U) rng.range(-1, 1) : cls == 2 ? 0xFFFFFFFFu - (U) rng.below(4) : (rng.coin() ? 0x80000000u : 0x7FFFFFFFu);
             gin.s->a[i] = (int32_t) v;
         }
@@ -134,7 +135,7 @@ static void exact_multi(int t, int bb, int n_in, int n_out, int reps) {
         int32_t err = (int32_t) (sa - R);
         out.evaluations++;
         if ((R & (unit - 1)) != 0 || iabs64(err) > (int64_t) w * (int64_t) halfu)
-            out.viol("ks-exact:multi:" + lay(t, bb), J().i("t", t).i("basebit", bb).i("n_in", n_in).i("n_out", n_out).i("class", cls).u("removed", R).i("err", err).i("key_weight", w).u("unit", unit));
+            out.viol("ks-exact:multi:" + lay(t, bb), J().i("t", t).i("basebit", bb).i("n_in", n_in).i("n_out", n_out).i("class", cls0).u("removed", R).i("err", err).i("key_weight", w).u("unit", unit));
     }
     if (!gout.g.canary_ok()) out.viol("ks-exact:underrun", J().i("n_out", n_out));
     char cell[96]; snprintf(cell, sizeof cell, "exact-multi:%s:n_in=%d:n_out=%d", lay(t, bb).c_str(), n_in, n_out); out.cell(cell, reps);
